@@ -347,11 +347,10 @@ func storeHist(n, threads, nops int, seed int64, which string) M {
 	var write func(k, v string)
 	var remove func(k string)
 	var get func(k string) string
-	if which == "topics" {
-		t := topics.NewTree()
-		write = func(k, v string) { t.Insert([]byte(k), []byte(v)) }
-		remove = func(k string) { t.Remove([]byte(k)) }
-		get = func(k string) string {
+	// snapshot: dump the store, load the dump into a fresh store, read every key there
+	var snapshot func() ([]M, string)
+	topicsGet := func(t topics.Store) func(k string) string {
+		return func(k string) string {
 			var out [][]byte
 			t.Match([]byte(k), &out)
 			parts := []string{}
@@ -360,11 +359,9 @@ func storeHist(n, threads, nops int, seed int64, which string) M {
 			}
 			return strings.Join(parts, ",")
 		}
-	} else {
-		t := subscriptions.NewTree()
-		write = func(k, v string) { t.Upsert([]byte(k), func([]byte) []byte { return []byte(v) }) }
-		remove = func(k string) { t.Upsert([]byte(k), func([]byte) []byte { return nil }) }
-		get = func(k string) string {
+	}
+	subsGet := func(t subscriptions.Tree) func(k string) string {
+		return func(k string) string {
 			parts := []string{}
 			t.Walk([]byte(k), func(b []byte) {
 				if len(b) > 0 {
@@ -374,13 +371,67 @@ func storeHist(n, threads, nops int, seed int64, which string) M {
 			return strings.Join(parts, ",")
 		}
 	}
+	read := func(g func(k string) string) []M {
+		out := []M{}
+		for _, k := range keys {
+			if v := g(k); v != "" {
+				out = append(out, M{"k": k, "v": v})
+			}
+		}
+		return out
+	}
+	if which == "topics" {
+		t := topics.NewTree()
+		write = func(k, v string) { t.Insert([]byte(k), []byte(v)) }
+		remove = func(k string) { t.Remove([]byte(k)) }
+		get = topicsGet(t)
+		snapshot = func() ([]M, string) {
+			b, err := t.Dump()
+			if err != nil {
+				return []M{}, "dump: " + err.Error()
+			}
+			t2 := topics.NewTree()
+			if err := t2.Load(b); err != nil {
+				return []M{}, "load: " + err.Error()
+			}
+			return read(topicsGet(t2)), ""
+		}
+	} else {
+		t := subscriptions.NewTree()
+		write = func(k, v string) { t.Upsert([]byte(k), func([]byte) []byte { return []byte(v) }) }
+		remove = func(k string) { t.Upsert([]byte(k), func([]byte) []byte { return nil }) }
+		get = subsGet(t)
+		snapshot = func() ([]M, string) {
+			b, err := t.Dump()
+			if err != nil {
+				return []M{}, "dump: " + err.Error()
+			}
+			t2 := subscriptions.NewTree()
+			if err := t2.Load(b); err != nil {
+				return []M{}, "load: " + err.Error()
+			}
+			return read(subsGet(t2)), ""
+		}
+	}
 	h := &hist{}
 	run(threads, seed, func(t int, r *rand.Rand) {
 		for i := 0; i < nops; i++ {
 			k := keys[r.Intn(len(keys))]
-			switch r.Intn(3) {
+			switch r.Intn(4) {
+			case 3:
+				h.do(t, M{"f": "snapshot", "k": "", "v": "", "r": ""}, func(o M) {
+					var snap []M
+					var e string
+					o["panic"] = guard(func() { snap, e = snapshot() })
+					if snap == nil {
+						snap = []M{}
+					}
+					o["snap"] = snap
+					o["err"] = e
+				})
 			case 0:
-				v := fmt.Sprintf("v%d-%d", t, i)
+				// values of different lengths: a replaced value changes the size of the encoded node
+				v := fmt.Sprintf("v%d-%d%s", t, i, strings.Repeat("x", r.Intn(3)*7))
 				h.do(t, M{"f": "write", "k": k, "v": v, "r": ""}, func(o M) { o["panic"] = guard(func() { write(k, v) }) })
 			case 1:
 				h.do(t, M{"f": "remove", "k": k, "v": "", "r": ""}, func(o M) { o["panic"] = guard(func() { remove(k) }) })
@@ -526,6 +577,7 @@ func main() {
 	n := flag.Int("n", 20, "histories per object")
 	threads := flag.Int("threads", 4, "")
 	nops := flag.Int("ops", 6, "operations per goroutine")
+	only := flag.String("only", "", "store: only the histories on the two topic-keyed stores")
 	flag.Parse()
 	seed, _ := strconv.ParseInt(os.Getenv("VERIF_SEED"), 10, 64)
 	f, err := os.Create(*out)
@@ -541,6 +593,13 @@ func main() {
 	k := 0
 	for i := 0; i < *n; i++ {
 		s := seed*100003 + int64(i)
+		if *only == "store" {
+			k++
+			emit(storeHist(k, *threads, *nops, s, "topics"))
+			k++
+			emit(storeHist(k, *threads, *nops, s, "subs"))
+			continue
+		}
 		k++
 		emit(poolHist(k, *threads, *nops, s))
 		k++
